@@ -6,5 +6,5 @@ From VV Require Import Base.F64 Eval.EvalDefs Eval.EvalClassDefs.
 Extraction "eval_model.ml" mae_err mse_err rmae_err rmae_err_pinned count_err count_wrong
   soe_eval soe_fast soe_eval_pinned sum_of_errors_impl_x err_throws frame_x binary_tag binary_eval dyn_slot_eval gaussian_eval
   dyn_slot_eval_real gaussian_eval_real binary_eval_real dyn_tags_real gauss_tags_real
-  team_out test_fixed test_distinct_run ga_eval constrained_eval issmall wrong_by mismatches frame_cls
+  team_out dyn_slot_eval_team gaussian_eval_team binary_eval_team test_fixed test_distinct_run ga_eval constrained_eval issmall wrong_by mismatches frame_cls
   F64.of_bits F64.to_bits F64.is_nan.
